@@ -43,6 +43,10 @@ class PathBudget(Exception):
     pass
 
 
+class Cut(Exception):
+    """a bounded stand-in stops exploring this path here (e.g. more redraws than the stated bound)"""
+
+
 _CUR = [None]
 
 
@@ -85,6 +89,8 @@ class Path:
         self.solver_calls = 0
         self.inputs = {}     # declared inputs: name -> (kind, z3 const(s))
         self.uses_uninterpreted = False
+        self.rng_calls = 0
+        self.rng_limit = None
 
     # ------------------------------------------------------------------ fresh
     def fresh(self, base, sort='real'):
@@ -1064,6 +1070,10 @@ class SCplx(numbers.Number):
 
     def __complex__(self):
         unsupported("complex() of a symbolic value")
+
+
+numbers.Real.register(SNum)
+numbers.Complex.register(SCplx)
 
 
 def is_sym(v):
